@@ -495,14 +495,24 @@ impl<P: Pad> Iterator for FeedIter<'_, P> {
     type Item = TokG<P>;
     fn next(&mut self) -> Option<TokG<P>> {
         fp_hit(FpKind::IterNext);
-        let r = self.items.get_mut(self.pos)?.take();
+        if self.pos >= self.items.len() {
+            self.pos += 1;
+            // hint 4: an un-fused source. It ends with its first None; a consumer that keeps polling
+            // gets "poison" elements that are not part of the sequence (at most 3 of them)
+            if self.hint == 4 && self.pos > self.items.len() + 1 && self.pos <= self.items.len() + 4 {
+                let _s = Suspend::new();
+                return Some(TokG::new(77));
+            }
+            return None;
+        }
+        let r = self.items[self.pos].take();
         self.pos += 1;
         r
     }
     fn size_hint(&self) -> (usize, Option<usize>) {
         let r = self.items.len() - self.pos.min(self.items.len());
         match self.hint {
-            1 => (0, None),
+            1 | 4 => (0, None),
             2 => (0, Some(2 * r + 7)),
             3 => (r / 2, None),
             _ => (r, Some(r)),
@@ -1637,7 +1647,8 @@ pub fn step<const N: usize, P: Pad>(
                             sig(op, N, lay, "wrong_contents"),
                             format!("{:?}: {}; before={:?} after={:?}; case={}", op, e, before, post.pairs(), ctx.cur_case),
                         );
-                        if matches!(prop, "C02" | "C09") {
+                        if matches!(prop, "C02" | "C09" | "C12") {
+                            // C01 speaks of every operation of the API that changes the contents
                             ctx.violation("C01", sig(op, N, lay, "wrong_contents"), format!("{:?}: {}", op, e));
                         }
                         *model = post.pairs();
